@@ -1257,6 +1257,60 @@ def Encoder_EncodePackedUInt32.body (fuel : Nat) : Encoder_EncodePackedUInt32.St
 def Encoder_EncodePackedUInt32 (fuel : Nat) (e_p : Bytes) (e_offset : BitVec 64) (tag : BitVec 64) (vs : List (BitVec 32)) : Go.Out Encoder_EncodePackedUInt32.St Encoder_EncodePackedUInt32.R :=
   Encoder_EncodePackedUInt32.body fuel { e_p := e_p, e_offset := e_offset, tag := tag, vs := vs }
 
+/-! ### `Encoder.EncodePackedSInt64` (/repo/encoder.go:238:1) -/
+
+structure Encoder_EncodePackedSInt64.St where
+  e_p : Bytes
+  e_offset : BitVec 64
+  tag : BitVec 64
+  vs : List (BitVec 64)
+  sz : BitVec 64 := 0#64
+  v : BitVec 64 := 0#64
+
+abbrev Encoder_EncodePackedSInt64.R := Unit
+
+/-- the body of `Encoder_EncodePackedSInt64`, statement by statement -/
+def Encoder_EncodePackedSInt64.body (fuel : Nat) : Encoder_EncodePackedSInt64.St → Go.Out Encoder_EncodePackedSInt64.St Encoder_EncodePackedSInt64.R :=
+  (Go.seq (Go.seq (fun s => if ((BitVec.ofNat 64 s.vs.length) == 0#64) then (fun s => .ret () s) s else Go.skip s)
+    (Go.seq (fun s => if ((s.e_offset).toNat ≤ s.e_p.length) then match (EncodeTag fuel (s.e_p.drop (s.e_offset).toNat) s.tag 2#64) with | .ret r c => .next { s with e_p := s.e_p.take (s.e_offset).toNat ++ c.dest, e_offset := (s.e_offset + r) } | .next _ => .panic | .panic => .panic | .diverge => .diverge else .panic)
+    (Go.seq (fun s => .next { s with sz := 0#64 })
+    (Go.seq (Go.forEach (fun s => s.vs) (fun s x => { s with v := x })
+    (fun s => .next { s with sz := (s.sz + (SizeOfZigZag s.v)) }))
+    (Go.seq (fun s => if ((s.e_offset).toNat ≤ s.e_p.length) then match (EncodeVarint fuel (s.e_p.drop (s.e_offset).toNat) s.sz) with | .ret r c => .next { s with e_p := s.e_p.take (s.e_offset).toNat ++ c.dest, e_offset := (s.e_offset + r) } | .next _ => .panic | .panic => .panic | .diverge => .diverge else .panic)
+    (Go.forEach (fun s => s.vs) (fun s x => { s with v := x })
+    (fun s => if ((s.e_offset).toNat ≤ s.e_p.length) then match (EncodeZigZag64 fuel (s.e_p.drop (s.e_offset).toNat) s.v) with | .ret r c => .next { s with e_p := s.e_p.take (s.e_offset).toNat ++ c.dest, e_offset := (s.e_offset + r) } | .next _ => .panic | .panic => .panic | .diverge => .diverge else .panic)))))))
+    (fun s => .ret () s))
+
+def Encoder_EncodePackedSInt64 (fuel : Nat) (e_p : Bytes) (e_offset : BitVec 64) (tag : BitVec 64) (vs : List (BitVec 64)) : Go.Out Encoder_EncodePackedSInt64.St Encoder_EncodePackedSInt64.R :=
+  Encoder_EncodePackedSInt64.body fuel { e_p := e_p, e_offset := e_offset, tag := tag, vs := vs }
+
+/-! ### `Encoder.EncodePackedSInt32` (/repo/encoder.go:218:1) -/
+
+structure Encoder_EncodePackedSInt32.St where
+  e_p : Bytes
+  e_offset : BitVec 64
+  tag : BitVec 64
+  vs : List (BitVec 32)
+  sz : BitVec 64 := 0#64
+  v : BitVec 32 := 0#32
+
+abbrev Encoder_EncodePackedSInt32.R := Unit
+
+/-- the body of `Encoder_EncodePackedSInt32`, statement by statement -/
+def Encoder_EncodePackedSInt32.body (fuel : Nat) : Encoder_EncodePackedSInt32.St → Go.Out Encoder_EncodePackedSInt32.St Encoder_EncodePackedSInt32.R :=
+  (Go.seq (Go.seq (fun s => if ((BitVec.ofNat 64 s.vs.length) == 0#64) then (fun s => .ret () s) s else Go.skip s)
+    (Go.seq (fun s => if ((s.e_offset).toNat ≤ s.e_p.length) then match (EncodeTag fuel (s.e_p.drop (s.e_offset).toNat) s.tag 2#64) with | .ret r c => .next { s with e_p := s.e_p.take (s.e_offset).toNat ++ c.dest, e_offset := (s.e_offset + r) } | .next _ => .panic | .panic => .panic | .diverge => .diverge else .panic)
+    (Go.seq (fun s => .next { s with sz := 0#64 })
+    (Go.seq (Go.forEach (fun s => s.vs) (fun s x => { s with v := x })
+    (fun s => .next { s with sz := (s.sz + (SizeOfZigZag (BitVec.signExtend 64 s.v))) }))
+    (Go.seq (fun s => if ((s.e_offset).toNat ≤ s.e_p.length) then match (EncodeVarint fuel (s.e_p.drop (s.e_offset).toNat) s.sz) with | .ret r c => .next { s with e_p := s.e_p.take (s.e_offset).toNat ++ c.dest, e_offset := (s.e_offset + r) } | .next _ => .panic | .panic => .panic | .diverge => .diverge else .panic)
+    (Go.forEach (fun s => s.vs) (fun s x => { s with v := x })
+    (fun s => if ((s.e_offset).toNat ≤ s.e_p.length) then match (EncodeZigZag32 fuel (s.e_p.drop (s.e_offset).toNat) s.v) with | .ret r c => .next { s with e_p := s.e_p.take (s.e_offset).toNat ++ c.dest, e_offset := (s.e_offset + r) } | .next _ => .panic | .panic => .panic | .diverge => .diverge else .panic)))))))
+    (fun s => .ret () s))
+
+def Encoder_EncodePackedSInt32 (fuel : Nat) (e_p : Bytes) (e_offset : BitVec 64) (tag : BitVec 64) (vs : List (BitVec 32)) : Go.Out Encoder_EncodePackedSInt32.St Encoder_EncodePackedSInt32.R :=
+  Encoder_EncodePackedSInt32.body fuel { e_p := e_p, e_offset := e_offset, tag := tag, vs := vs }
+
 /-! ### `Encoder.EncodeBool` (/repo/encoder.go:25:1) -/
 
 structure Encoder_EncodeBool.St where
